@@ -45,9 +45,15 @@ def _dec(fr):
     return Decimal(fr.numerator) / Decimal(fr.denominator)
 
 
+ULPS = F(1, 2 ** 46)   # 64 ulps of a double, relative
+
+
 def near(x, y, scale=None):
-    s = max(1, abs(y)) if scale is None else scale
-    return abs(x - y) <= BAND * s
+    """Ambiguity band of DESIGN 3.  Without an explicit scale: 1e-9 absolute, widened to 64 ulps for large
+    magnitudes (tick numbers up to 1e9+), never a fixed fraction of the value."""
+    if scale is None:
+        return abs(x - y) <= max(BAND, ULPS * abs(y))
+    return abs(x - y) <= BAND * scale
 
 
 def cpu_time(law, b, c):
@@ -95,7 +101,7 @@ class Arith:
         return floor(x)
 
     def gt(self, a, b, what="compare"):
-        if not self.exact and near(a, b):
+        if not self.exact and near(a, b, max(1, abs(b))):
             if what == "batch cpu" and a.denominator == 1 and b.denominator == 1:
                 self.strict += 1
                 return a > b      # integer CPU counts are exact in floats too
